@@ -42,7 +42,8 @@ class MerkleFamily(Family):
     name = 'merkle'
 
     def gen(self, rng, tier, prop):
-        mode = 'concurrent' if prop == 'C11' else 'sequential'
+        # C12 says "in any order": that includes a truncate arriving while an extension is in flight
+        mode = 'concurrent' if prop == 'C11' or rng.random() < 0.4 else 'sequential'
         n = rng.choice([1, 2, 3, 5, 8, 17, 33, 64, 100, 257, 600])
         ops = []
         cur = rng.randint(1, n)
@@ -58,7 +59,7 @@ class MerkleFamily(Family):
                 ln = rng.randint(1, n)
                 ops.append(('burst', [(rng.randint(1, n), rng.random()) for _ in range(rng.randint(2, 4))]))
         return dict(plan=[dict(op=mode, n=n, ops=ops, lat=rng.choice([0.0, 0.01, 1.0]),
-                               seed=rng.getrandbits(32))])
+                               seed=rng.getrandbits(32), target=prop, sweep=rng.choice(['up', 'shuffle', 'top']))])
 
     def execute(self, case, chooser, trace=False, logs=False):
         op = case['plan'][0]
@@ -92,7 +93,7 @@ class MerkleFamily(Family):
         leaves = [leaf(i, 0) for i in range(n)]
         merkle = Merkle()
         concurrent = op['op'] == 'concurrent'
-        prop = 'C11' if concurrent else 'C12'
+        prop = op.get('target') or ('C11' if concurrent else 'C12')
         versions = [list(leaves)]       # every version of the underlying list
 
         async def source(start, count):
@@ -206,6 +207,12 @@ class MerkleFamily(Family):
             if len(pairs) > 60:
                 pairs = rng.sample(pairs, 54) + [(len(leaves), 0), (len(leaves), len(leaves) - 1),
                                                   (1, 0), (cache.length or 1, 0)]
+            # order of the sweep: ascending lengths (every query extends the cache), shuffled, or the full
+            # length first (every later query is answered from inside the cache)
+            if op.get('sweep') in ('shuffle', 'top'):
+                rng.shuffle(pairs)
+            if op.get('sweep') == 'top':
+                pairs.insert(0, (len(leaves), rng.randrange(len(leaves))))
             for ln, i in pairs:
                 await query(ln, i, rng.random() < 0.2, lambda before: [leaves], 'final sweep')
                 if viol:
